@@ -298,10 +298,7 @@ def run_rig(chk, scenarios, race=False, shards=None, tag="rig", watchdog=None, f
             continue
         elif r.timed_out or r.rc != 0:
             m = re.search(r"^(?:panic|fatal error): (.*)$", r.out, re.M)
-            first_stack = r.out.split("\n\n", 2)[1] if m and r.out.count("\n\n") >= 1 else ""
-            if m and re.search(r"/broker\.\(\*(BrokerContext|IPC|Metrics|roundedCounter|SnowflakeHeap)\)|/broker\.(proxyPolls|clientOffers|proxyAnswers|ampClientOffers|debugHandler|SnowflakeHeap)|container/heap", r.out) \
-                    and "rig_verif_test.go" not in first_stack.split("created by")[0][:1500].replace("vRig", "") \
-                    and "synctest" not in m.group(1):
+            if m and "synctest" not in m.group(1) and product_crash(r.out[m.start():]):
                 # a goroutine of the broker itself panicked: in production this terminates the broker
                 CRASHES.append((m.group(1), r.out[-2500:], outp.replace("out-", "in-")))
             elif not (race and "WARNING: DATA RACE" in r.out):
@@ -339,6 +336,19 @@ def used_names(events):
         if ev.get("ev") == "a.lookup" and ev.get("sid") and ev["sid"] != "unknownSid":
             P.add(ev["sid"])
     return sorted(P), sorted(C), sorted(A)
+
+
+def product_crash(text):
+    """text starts at the 'panic:' / 'fatal error:' line.  True when the innermost non-runtime frame of the
+    goroutine that died is broker code (not rig code): the broker itself crashed."""
+    stack = text.split("\n\n", 2)
+    stack = stack[1] if len(stack) > 1 else ""
+    for fn in re.findall(r"^(\S+)\(", stack, re.M):
+        if fn.startswith(("runtime.", "runtime/", "internal/", "sync.", "sync/", "container/", "sort.", "reflect.", "panic")):
+            continue
+        name = fn.rsplit("/", 1)[-1]
+        return name.startswith("broker.") and "vRig" not in name and ".v" not in name[:9] and "TestVerif" not in name
+    return False
 
 
 def stuck_signature(stacks):
@@ -389,7 +399,7 @@ def validate(chk, by_sc, locked=False, max_rounds=12, bridges=None):
         for sid in sorted(by_sc):
             for e in by_sc[sid]:
                 if any(isinstance(e.get(k), str) and e[k].startswith("?") for k in ("p", "c", "a", "root", "client", "sid")):
-                    pre.append((sid, "reject:" + e["ev"], e))
+                    pre.append((sid, "identity:" + e["ev"], e))
                     break
         if pre:
             by_sc = {k: v for k, v in by_sc.items() if k not in set(x[0] for x in pre)}
@@ -445,7 +455,14 @@ def validate(chk, by_sc, locked=False, max_rounds=12, bridges=None):
                 raise vlib.Inconclusive("trace validation failed without a position:\n" + r.out[-2000:])
             ev = rej[-1]["event"]
             bad = ev["sc"]
-            findings.append((bad, "reject:" + ev["ev"], ev))
+            kind = "reject:" + ev["ev"]
+            if ev["ev"] == "add":
+                # a second registration under the name of a proxy that is already registered: the broker
+                # took one session id for another (identities are C02's business, not the pool's)
+                adds = [e for e in by_sc[bad] if e["ev"] == "add" and e.get("p") == ev.get("p")]
+                if len(adds) > 1:
+                    kind = "identity:add"
+            findings.append((bad, kind, ev))
         elif r.error.startswith("invariant:") or r.error.startswith("actionprop:"):
             pos = [int(x) for x in re.findall(r"^/\\ l = (\d+)", r.out, re.M)]
             if not pos:
@@ -552,6 +569,8 @@ def pipeline(chk, owner, tier, seed, counts=None, herds=None, do_mc=True, mc_onl
     for sid, kind, ev in findings:
         if kind.startswith("inv:"):
             own = INV_OWNER.get(kind[4:], "C04")
+        elif kind.startswith("identity:"):
+            own = "C02"    # the broker shows a session id, offer or answer that nobody sent: identities are C02's business
         else:
             own = EV_OWNER.get(kind[7:], "C04")
         if own == owner:
